@@ -192,6 +192,10 @@ pub fn jobs(id: &str, thorough: bool) -> Vec<Job> {
                 name: "F/plain",
                 run: crate::engine_f::run,
             });
+            v.push(Job::Other {
+                name: "F/logging",
+                run: crate::engine_f::run_logging_child,
+            });
         }
         "C15" => {
             for c in engine_p::configs_wait(if thorough { 3 } else { 2 }, false) {
